@@ -131,3 +131,5 @@ func TestVerifC07Avc(t *testing.T) {
 	}
 	vC07Drive(t, decs, helpers, fams, 800, 10000)
 }
+
+func FuzzVerifC07Avc(f *testing.F) { vC07FuzzTarget(f, TestVerifC07Avc) }
